@@ -25,6 +25,7 @@ pub struct ACfg {
     pub read_in_cb: bool,
     pub scripts: Vec<Script>,
     pub stop_how: u32,
+    pub sampler: bool,
 }
 
 pub fn gen(rng: &mut Rng, tiny: bool, focus: &str) -> ACfg {
@@ -127,6 +128,7 @@ pub fn gen(rng: &mut Rng, tiny: bool, focus: &str) -> ACfg {
         read_in_cb: focus == "C08" || rng.chance(1, 3),
         scripts,
         stop_how: if rng.chance(1, 4) { STOP_TRAIT } else { STOP_STOP },
+        sampler: focus == "C18" || rng.chance(1, 4),
     }
 }
 
@@ -213,6 +215,19 @@ pub fn execute(c: &ACfg, seed: u64) -> (W, bool) {
                 }
             }).unwrap());
         }
+        if c.sampler {
+            let w = &w;
+            let stop_readers = &stop_readers;
+            rh.push(std::thread::Builder::new().name("sampler".into()).spawn_scoped(sc, move || {
+                let cap = if cfg!(miri) { 4 } else { 2000 };
+                let mut n = 0;
+                while !stop_readers.load(Ordering::Relaxed) && n < cap {
+                    w.metrics(0);
+                    w.ctx.perturb();
+                    n += 1;
+                }
+            }).unwrap());
+        }
         let mut keep = Vec::new();
         for h in hs {
             keep.push(h.join().unwrap());
@@ -228,6 +243,7 @@ pub fn execute(c: &ACfg, seed: u64) -> (W, bool) {
         }
         w.read(0);
         w.read(0);
+        w.metrics(0);
         drop(keep);
     });
     drop(subs);
